@@ -108,6 +108,10 @@ class Schema:
     def __ne__(self, other: Any) -> bool:
         return not self.__eq__(other)
 
+    def __hash__(self) -> int:
+        # must agree with __eq__, which compares name and parent
+        return hash((self._name, self._parent))
+
     @ignore_copy
     def __getattr__(self, item: str) -> "Table":
         return Table(item, schema=self)
